@@ -418,14 +418,18 @@ static int run_fans(uint64_t seed, long n) {
 static int run_tables(uint64_t seed) {
   vrt::Rng r(seed);
   for (int share_log = 1; share_log <= 5; ++share_log)
-    for (int W : {128, 512}) {
+    for (int W : {128, 512, -128, -512}) {
+      // negative W: the sequence starts with a step instead of a hold (the first value is predicted from the clamped zero prediction, so which of the two
+      // it is shifts one count in the histogram)
+      const bool first_hold = W > 0;
+      W = std::abs(W);
       const int total = 8192, nzero = total >> share_log, nstep = total - nzero;
       std::vector<int32_t> seq;
       int32_t x = 0;
       // interleave: the k-th value repeats its predecessor when (k * nzero) / total advances, i.e. evenly spread holds (the first value counts as a hold)
       int holds = 0, steps = 0;
       for (int k = 0; k < total; ++k) {
-        const bool hold = (long)(k + 1) * nzero / total > (long)k * nzero / total;
+        const bool hold = first_hold ? ((long)k * nzero) % total < nzero : (long)(k + 1) * nzero / total > (long)k * nzero / total;
         if (!hold) { x += (steps % W) + 1; ++steps; } else ++holds;
         seq.push_back(x);
       }
